@@ -344,8 +344,15 @@ def child_parses(spec, jobs):
                     if hasattr(p, "errors"):
                         rep["probs"].append("parser.errors still present after raising")
                     if job["recovery"] not in ("default", "off") and last_err and (
-                            raised is not last_err[0]):
-                        rep["probs"].append("raised SyntaxError is not the last recorded error")
+                            raised is not last_err[0]) and (
+                            raised.location.start_position
+                            != last_err[0].location.start_position):
+                        # compared by value (position), so that an implementation
+                        # that copies error objects does not alarm
+                        rep["probs"].append(
+                            "raised SyntaxError (at %s) is not the last recorded error (at %s)"
+                            % (raised.location.start_position,
+                               last_err[0].location.start_position))
                     try:
                         str(raised)
                     except Exception as ex:
